@@ -782,7 +782,16 @@ func runKMount(c *core.Case, variant string, k int) {
 		return
 	}
 	defer func() { wproc.stop() }()
-	w, err := wproc.open(filepath.Join(P.MountDir(), "db"), false)
+	// WAL mode, every other case: the application runs with synchronous=FULL on
+	// a "device without powersafe overwrite" (URI parameter psow=0): SQLite then
+	// repeats each commit frame to fill its sector
+	var wparams []string
+	padded := mode == "wal" && (k/len(modes))%2 == 1
+	if padded {
+		wparams = []string{"psow=0"}
+		c.Count("kmount_wal_psow0_cases", 1)
+	}
+	w, err := wproc.open(filepath.Join(P.MountDir(), "db"), false, wparams...)
 	if err != nil {
 		fail("open", "cannot open the database through the mount: "+err.Error(), nil)
 		return
@@ -921,6 +930,10 @@ func runKMount(c *core.Case, variant string, k int) {
 		return
 	}
 	hist = append(hist, "PRAGMA journal_mode="+mode)
+	if padded {
+		_ = w.exec("PRAGMA synchronous=FULL")
+		hist = append(hist, "opened with psow=0; PRAGMA synchronous=FULL")
+	}
 	if smallCache {
 		_ = w.exec("PRAGMA cache_size=6")
 	}
@@ -1011,7 +1024,7 @@ func runKMount(c *core.Case, variant string, k int) {
 				c.Inconclusive("SQL child: " + err.Error())
 				return
 			}
-			if w, err = wproc.open(filepath.Join(P.MountDir(), "db"), false); err != nil {
+			if w, err = wproc.open(filepath.Join(P.MountDir(), "db"), false, wparams...); err != nil {
 				fail("open-after-client-crash", err.Error(), nil)
 				return
 			}
